@@ -14,6 +14,7 @@ func init() {
 
 func checkC17(c *Ctx) {
 	l := c.L
+	checkKeyedImpliesQueued(c, "PASS-keyed-implies-queued")
 	checkOverlayMaintenance(c, "PASS-overlay")
 	checkMemoAfterIteratorVerdict(c, "ORDER-memo-after-verdict")
 	checkInitialVersionConsumed(c, "ORDER-initial-version-consumed")
@@ -419,5 +420,78 @@ func checkMemoAfterIteratorVerdict(c *Ctx, rule string) {
 	}
 	if n < 3 {
 		c.anchorMissing(rule, "fewer than 3 memo writes in iterator-positioning functions")
+	}
+}
+
+// checkKeyedImpliesQueued (C17): SaveVersion takes a root that is already keyed
+// for the committing version for "queued by an earlier attempt whose commit
+// failed" and queues nothing.  That is only true if a failure INSIDE
+// saveNewNodes — keys are assigned to all new nodes first, then the nodes are
+// queued one by one, and queueing fails when the batch wrapper's early flush
+// fails — does not leave keyed nodes that were never queued: every error
+// return after the key assignment must un-key the new nodes (or the retry must
+// re-queue them).
+func checkKeyedImpliesQueued(c *Ctx, rule string) {
+	l := c.L
+	c.rule(rule, "a failed queueing of new nodes does not leave keyed, never-queued nodes behind", 1)
+	snn := l.Func("", "*MutableTree.saveNewNodes")
+	saveNode := l.Func("", "*nodeDB.SaveNode")
+	fNK := l.Field("", "Node", "nodeKey")
+	if snn == nil || saveNode == nil || fNK == nil {
+		c.anchorMissing(rule, "saveNewNodes / SaveNode / Node.nodeKey")
+		return
+	}
+	isUnkey := func(in ssa.Instruction) bool {
+		st, ok := in.(*ssa.Store)
+		if !ok {
+			return false
+		}
+		fa, ok := st.Addr.(*ssa.FieldAddr)
+		return ok && fieldVar(fa.X.Type(), fa.Field) == fNK && isNilConst(stripTrivial(st.Val))
+	}
+	n := 0
+	for _, in := range callsIn(snn, predStatic(saveNode)) {
+		call, ok := in.(*ssa.Call)
+		if !ok {
+			continue
+		}
+		n++
+		// error returns on the failure edge of this call
+		bad := false
+		var at ssa.Instruction = call
+		for _, r := range returnsOf(snn) {
+			if errNilness(retVal(r, 0), r.Block(), 0) <= 0 {
+				continue
+			}
+			if !instrDominates(call, r) || okEdgeDominates(call, r) {
+				continue
+			}
+			// some un-keying on the way from the call to this return
+			passed := false
+			searchFrom([]point{after(call)}, func(x ssa.Instruction) bool {
+				if isUnkey(x) {
+					passed = true
+				}
+				if cc := callCommon(x); cc != nil {
+					if g := staticCallee(cc); g != nil && l.inModule(g) {
+						allInstrs(g, func(y ssa.Instruction) {
+							if isUnkey(y) {
+								passed = true
+							}
+						})
+					}
+				}
+				return x == ssa.Instruction(r)
+			})
+			if !passed {
+				bad, at = true, r
+			}
+		}
+		c.decide(rule, "saveNewNodes: failed SaveNode leaves no keyed, never-queued node", l.ipos(at), !bad,
+			"the failure edge un-keys the new nodes",
+			"when queueing a new node fails (the batch wrapper's early flush failed), saveNewNodes returns with every new node already keyed but only some of them queued; the retried SaveVersion sees a root keyed for this version, takes it for queued and commits: success is reported for a version whose nodes were never written (reopen: version does not exist)")
+	}
+	if n == 0 {
+		c.anchorMissing(rule, "saveNewNodes no longer calls SaveNode")
 	}
 }
